@@ -292,6 +292,10 @@ func execWQCase(x *execCtx) {
 		}
 		toks := strings.Fields(line)
 		f := fields(toks[1:])
+		if r == nil && toks[0] != "new" {
+			out(line, "bad-op:no-queue")
+			continue
+		}
 		switch toks[0] {
 		case "new":
 			r = &wqRun{W: atoi(f["W"]), returned: map[int]bool{}, adjVals: map[int]*atomic.Int64{}}
@@ -427,4 +431,194 @@ func execWQCase(x *execCtx) {
 		}
 	}
 	_ = io.EOF
+}
+
+// ---- ungated stress under the race detector: many producers, real concurrency ----
+
+func init() {
+	components["wqstress"] = &component{gen: genWQStress, exec: func(x *execCtx) { runIsolated("wqstress", x, 120*time.Second) }}
+	components["wqstress!case"] = &component{exec: execWQStressCase}
+}
+
+func genWQStress(g *genCtx) {
+	rounds := int(16 * g.scale)
+	if !g.quick() {
+		rounds = int(200 * g.scale)
+	}
+	for t := 0; t < rounds; t++ {
+		g.newCase("kind=stress")
+		r := g.rng
+		n := r.rangeIn(50, 1000)
+		if !g.quick() && r.chance(1, 4) {
+			n = r.rangeIn(1000, 10000)
+		}
+		g.op("stress W=%d L=%d P=%d N=%d errpct=%d subs=%d latesubs=%d seed=%d", r.rangeIn(1, 8), r.rangeIn(1, 16), []int{1, 2, 4, 16}[r.intn(4)], n,
+			[]int{0, 10, 50}[r.intn(3)], r.intn(3), r.intn(3), r.intn(1<<30))
+	}
+}
+
+func execWQStressCase(x *execCtx) {
+	real := os.Stdout
+	if devnull, err := os.OpenFile(os.DevNull, os.O_WRONLY, 0); err == nil {
+		os.Stdout = devnull
+	}
+	for x.in.Scan() {
+		line := x.in.Text()
+		if strings.HasPrefix(line, "case ") || line == "" {
+			fmt.Fprintln(real, line)
+			continue
+		}
+		toks := strings.Fields(line)
+		f := fields(toks[1:])
+		if toks[0] != "stress" {
+			fmt.Fprintf(real, "%s => bad-op\n", line)
+			continue
+		}
+		fmt.Fprintf(real, "%s => %s\n", line, wqStress(atoi(f["W"]), atoi(f["L"]), atoi(f["P"]), atoi(f["N"]), atoi(f["errpct"]), atoi(f["subs"]), atoi(f["latesubs"]), uint64(atoi(f["seed"]))))
+	}
+}
+
+func wqStress(W, L, P, N, errpct, nsubs, late int, seed uint64) string {
+	q := workqueue.NewQueue(workqueue.WithWorkers(W), workqueue.WithQueueLength(L))
+	var running, maxRunning, executed atomic.Int64
+	counts := make([]atomic.Int32, N)
+	errOf := make([]error, N)
+	rg := newRng(seed)
+	for i := range errOf {
+		if rg.intn(100) < errpct {
+			errOf[i] = fmt.Errorf("e%d", i)
+		}
+	}
+	type subRec struct {
+		mu  sync.Mutex
+		got []error
+	}
+	var subsMu sync.Mutex
+	subs := []*subRec{}
+	addSub := func() {
+		ch := q.Errors()
+		sr := &subRec{}
+		subsMu.Lock()
+		subs = append(subs, sr)
+		subsMu.Unlock()
+		go func() {
+			for e := range ch {
+				sr.mu.Lock()
+				sr.got = append(sr.got, e)
+				sr.mu.Unlock()
+			}
+		}()
+	}
+	for i := 0; i < nsubs; i++ {
+		addSub()
+	}
+	ids := make([]uuid.UUID, N)
+	var idsMu sync.Mutex
+	var wg sync.WaitGroup
+	for p := 0; p < P; p++ {
+		wg.Add(1)
+		go func(p int) {
+			defer wg.Done()
+			r := newRng(seed + uint64(p)*104729)
+			for i := p; i < N; i += P {
+				i := i
+				nap := time.Duration(0)
+				if r.chance(1, 4) {
+					nap = time.Duration(r.intn(50)) * time.Microsecond
+				}
+				prio := r.intn(5)
+				id := q.Enqueue(func() error {
+					cur := running.Add(1)
+					for {
+						m := maxRunning.Load()
+						if cur <= m || maxRunning.CompareAndSwap(m, cur) {
+							break
+						}
+					}
+					if nap > 0 {
+						time.Sleep(nap)
+					}
+					counts[i].Add(1)
+					running.Add(-1)
+					executed.Add(1)
+					return errOf[i]
+				}, workqueue.WithPriority(prio), workqueue.WithName(fmt.Sprintf("n%d", i)))
+				idsMu.Lock()
+				ids[i] = id
+				idsMu.Unlock()
+			}
+		}(p)
+	}
+	for k := 0; k < late; k++ {
+		time.Sleep(time.Duration(rg.intn(400)) * time.Microsecond)
+		addSub() // Errors() while work is running
+	}
+	wg.Wait()
+	deadline := time.Now().Add(60 * time.Second)
+	for executed.Load() < int64(N) && time.Now().Before(deadline) {
+		time.Sleep(time.Millisecond)
+	}
+	settle("toolchest/workqueue.", func() int64 { return executed.Load() }, 10*time.Second)
+	lost, dup := 0, 0
+	for i := range counts {
+		c := int(counts[i].Load())
+		if c == 0 {
+			lost++
+		}
+		if c > 1 {
+			dup += c - 1
+		}
+	}
+	seen := map[uuid.UUID]bool{}
+	dupids := 0
+	for _, id := range ids {
+		if seen[id] {
+			dupids++
+		}
+		seen[id] = true
+	}
+	nerr := 0
+	for _, e := range errOf {
+		if e != nil {
+			nerr++
+		}
+	}
+	errmissing, errdup, foreign := 0, 0, 0
+	subsMu.Lock()
+	for k, sr := range subs {
+		sr.mu.Lock()
+		c := map[error]int{}
+		for _, e := range sr.got {
+			c[e]++
+		}
+		for e, n := range c {
+			known := false
+			for _, x := range errOf {
+				if x == e && e != nil {
+					known = true
+				}
+			}
+			if !known {
+				foreign += n
+			}
+			if n > 1 {
+				errdup += n - 1
+			}
+		}
+		if k < nsubs { // registered before any work was enqueued: must have every error
+			for _, e := range errOf {
+				if e != nil && c[e] == 0 {
+					errmissing++
+				}
+			}
+		}
+		sr.mu.Unlock()
+	}
+	subsMu.Unlock()
+	over := 0
+	if int(maxRunning.Load()) > W {
+		over = int(maxRunning.Load()) - W
+	}
+	return fmt.Sprintf("lost=%d dup=%d dupids=%d over=%d errmissing=%d errdup=%d foreign=%d left=%d %s",
+		lost, dup, dupids, over, errmissing, errdup, foreign, len(q.WorkItems()), raceObs())
 }
